@@ -11,7 +11,7 @@ import traceback
 
 VERIF = os.path.dirname(os.path.dirname(os.path.abspath(__file__)))
 REPO = os.environ.get("VERIF_REPO", "/repo")
-WORK = os.path.join(VERIF, ".work")
+WORK = os.environ.get("VERIF_WORK") or os.path.join(VERIF, ".work")
 NPROC = int(os.environ.get("VERIF_JOBS", "0")) or (os.cpu_count() or 4)
 DEFAULT_SEED = 20260925
 
@@ -98,6 +98,7 @@ class Evidence:
         self.t0 = time.time()
         self.evaluations = 0
         self.nontrivial = set()
+        self.nontrivial_counted = 0   # distinct non-trivial cases counted by a harness itself (enumerations), added to len(nontrivial)
         self.classes = {}
         self.samples = []
         self.max_samples = 6
@@ -136,6 +137,7 @@ class Evidence:
         """Merge a partial evidence dict produced by a worker (see partial())."""
         self.evaluations += other["evaluations"]
         self.nontrivial |= set(other["nontrivial"])
+        self.nontrivial_counted += other.get("nontrivial_counted", 0)
         for k, v in other["classes"].items():
             self.classes[k] = self.classes.get(k, 0) + v
         for s in other["samples"]:
@@ -154,13 +156,13 @@ class Evidence:
                 self.extra.setdefault(k, v)
 
     def partial(self):
-        return {"evaluations": self.evaluations, "nontrivial": sorted(self.nontrivial),
+        return {"evaluations": self.evaluations, "nontrivial": sorted(self.nontrivial), "nontrivial_counted": self.nontrivial_counted,
                 "classes": self.classes, "samples": self.samples, "known": self.known,
                 "excluded": self.excluded, "violations": self.violations,
                 "inconclusive": self.inconclusive, "extra": self.extra}
 
     def write(self):
-        cov = {"evaluations": int(self.evaluations), "distinct_nontrivial": len(self.nontrivial),
+        cov = {"evaluations": int(self.evaluations), "distinct_nontrivial": len(self.nontrivial) + int(self.nontrivial_counted),
                "rule": self.rule, "samples": self.samples if self.samples else ["(no non-trivial case was produced)"],
                "classes": dict(sorted(self.classes.items())),
                "known_findings_hit": self.known, "excluded_by_construction": self.excluded}
@@ -214,7 +216,16 @@ def print_known(prop, what):
 # ----------------------------------------------------------------------------------------------
 # parallel map (fork based; results must be picklable)
 
+_PM = {}
+
+
+def _pm_call(i):
+    return _PM["f"](_PM["items"][i])
+
+
 def pmap(func, items, nproc=None, chunksize=1):
+    """Parallel map via fork; func and items are inherited by the children (closures allowed),
+    only results are pickled."""
     import multiprocessing as mp
     items = list(items)
     if not items:
@@ -222,9 +233,15 @@ def pmap(func, items, nproc=None, chunksize=1):
     nproc = min(nproc or NPROC, len(items))
     if nproc <= 1:
         return [func(i) for i in items]
-    ctx = mp.get_context("fork")
-    with ctx.Pool(nproc) as pool:
-        return pool.map(func, items, chunksize)
+    saved = dict(_PM)
+    _PM["f"], _PM["items"] = func, items
+    try:
+        ctx = mp.get_context("fork")
+        with ctx.Pool(nproc) as pool:
+            return pool.map(_pm_call, range(len(items)), chunksize)
+    finally:
+        _PM.clear()
+        _PM.update(saved)
 
 
 def guarded(func):
